@@ -83,7 +83,7 @@ fn vs_poll_inactivity_timeout_fails_connection() {
 
 // ---- death path (method level) ---------------------------------------------------------------------
 
-// @verif id=VS.death props=C08,C03,C17 tier=quick timeout=1200 mem=16
+// @verif id=VS.death props=C08,C03,C17,C09 tier=quick timeout=1200 mem=16
 // @functions VirtualSocket::just_before_death, UserRx::enqueue_error, UserRx::mark_vsock_closed, UserTx::mark_vsock_closed, VirtualSocket::send_control_packet
 // @bounds states Established, FinWait1, FinWait2, LastAck, Closed; death with an error (retransmission limit) or without (clean close); a blocked reader and a blocked writer registered; transport ready
 // @asserts both stream halves are told the connection is gone and both blocked parties are woken; with an error the error is queued for the reader (so reads fail instead of hanging or reporting a clean end); AT MOST ONE datagram is emitted: a FIN with the next sequence number, and only when dying with an error before any own FIN was sent; a clean close emits nothing
